@@ -73,10 +73,7 @@ Definition strs (l : list bytes) : json := JArr (map JStr l).
 Definition is_digit (c : N) : bool := (48 <=? c) && (c <=? 57).
 Definition is_uint_text (t : bytes) : bool := negb (is_nil t) && forallb is_digit t.
 Definition is_int_text (t : bytes) : bool :=
-  match t with
-  | 45 :: r => is_uint_text r
-  | _ => is_uint_text t
-  end.
+  is_uint_text t || match t with 45 :: r => is_uint_text r | _ => false end.
 
 (* strconv.FormatInt(n, 10) *)
 Fixpoint dec_go (fuel : nat) (n : N) (acc : bytes) : bytes :=
